@@ -250,7 +250,7 @@ def s1(chk: Check, proj: Project) -> None:
             else:
                 chk.violated("S1", key, where, f"the patched Template.{uname} differs from the installed Django in an unreviewed way: upstream {ups or '(nothing)'} vs patched {ours or '(nothing)'}: templates that do not use components no longer behave like stock Django", detail={"upstream": ups, "patched": ours})
         eq = sum(i2 - i1 for tag, i1, i2, j1, j2 in sm.get_opcodes() if tag == "equal")
-        chk.ob("S1", f"util.django_monkeypatch:{uname}:common-skeleton", m.loc(f), eq >= 4, f"{eq} statements identical to upstream, {deltas} reviewed delta block(s)")
+        chk.ob("S1", f"util.django_monkeypatch:{uname}:common-skeleton", m.loc(f), eq >= 3, f"{eq} statements identical to upstream, {deltas} reviewed delta block(s)")
         # signature: upstream params are a prefix of ours
         pu, po = params(up[uname]), params(f)
         chk.ob("S1", f"util.django_monkeypatch:{uname}:signature", m.loc(f), po[: len(pu)] == pu, f"parameters {po} extend upstream {pu}")
